@@ -1,11 +1,19 @@
 #!/bin/bash
-# tools/try_seed.sh <ID> [patch]: apply a seeded change to /repo, run the check, revert. Prints the verdict lines.
+# tools/try_seed.sh <ID> [patch] : run ./check <ID> against a scratch worktree of /repo carrying a seeded
+# change; /repo itself, the committed evidence and the regular work directories are not touched.
+# env: TIER (quick), CHECK (defaults to <ID>: the check to run), KEEP=1 keeps the scratch worktree.
 ID=$1; P=${2:-/verif/seeded/$ID/patch.diff}
 [ -f "$P" ] || P=/tmp/mut/$ID/seed/patch.diff
-mkdir -p /verif/work/seedtry
-[ -z "$(git -C /repo status --porcelain)" ] || { echo "/repo not clean"; exit 2; }
-git -C /repo apply "$P" || exit 2
-(cd /verif && timeout 3000 ./check $ID --tier ${TIER:-quick} > work/seedtry/$ID.log 2>&1; echo "rc=$?" >> work/seedtry/$ID.log)
-git -C /repo checkout -- .
-echo "== $ID: $(grep -c '^VIOLATION' work/seedtry/$ID.log) violation lines, $(tail -1 work/seedtry/$ID.log)"
-grep -v '^KNOWN' /verif/work/seedtry/$ID.log | tail -6
+CHK=${CHECK:-$ID}
+TAG=${TAG:-$ID}
+WT=/tmp/seedwt_$TAG
+W=/verif/work/seedtry/$TAG
+rm -rf "$W"; mkdir -p "$W/evidence" "$W/replays" "$W/work"
+git -C /repo worktree remove --force "$WT" 2>/dev/null
+git -C /repo worktree add --detach "$WT" HEAD -q || exit 2
+git -C "$WT" apply "$P" || { echo "patch does not apply"; git -C /repo worktree remove --force "$WT"; exit 2; }
+(cd /verif && VERIF_REPO=$WT VERIF_WORK=$W/work VERIF_EVIDENCE=$W/evidence VERIF_REPLAYS=$W/replays \
+   timeout 3000 ./check $CHK --tier ${TIER:-quick} > $W/log 2>&1; echo "rc=$?" >> $W/log)
+[ -n "$KEEP" ] || { git -C /repo worktree remove --force "$WT"; rm -rf "$W/work/scratch_harness/target"; }
+echo "== $TAG (check $CHK): $(grep -c '^VIOLATION' $W/log) violation lines, $(tail -1 $W/log)"
+grep -v '^KNOWN' $W/log | grep -v "^\[" | tail -6
